@@ -34,7 +34,8 @@ Definition pkt_just (seen os : list iface) (sels : list selection) (p : packet) 
     In a (mi_addrs intf) /\ is_v4 (ia_ip a) = dest_is_v4 p /\
     (forall e, In e os -> key_is e (mi_index intf) a = true -> last_match sels e = true) /\
     p_if p = egress_if os intf (dest_is_v4 p) /\
-    Forall (seen_rec seen (mi_index intf)) (p_answers p ++ p_additionals p).
+    Forall (seen_rec seen (mi_index intf)) (p_answers p ++ p_additionals p) /\
+    (forall x, In x (mi_addrs intf) -> seen_has seen (mi_index intf) x).
 
 Definition obs_just1 (seen os : list iface) (sels : list selection) (o : obs) : Prop :=
   match o with OSent p => pkt_just seen os sels p | _ => True end.
@@ -178,6 +179,7 @@ Proof.
   - intros e He Hk. apply I3; [exact He|]. apply key_is_eq in Hk.
     destruct Hk as [Hk1 Hk2]. rewrite Hk1, Hk2. eapply get_held; eassumption.
   - simpl. eapply Forall_impl; [|exact Hl]. intros r. apply (link_ok_seen seen (d_intfs d)); assumption.
+  - intros x Hx. apply I5. eapply get_held; eassumption.
 Qed.
 
 (* ---- packets the model builds ---------------------------------------------------------------------- *)
@@ -407,6 +409,7 @@ Proof.
     + intros e He Hk. apply (inv_sel _ _ HI); [exact He|]. apply key_is_eq in Hk as [Hk1 Hk2].
     rewrite Hk1, Hk2. eapply get_held; eassumption.
     + simpl. rewrite H1. reflexivity.
+    + intros x Hx. apply (inv_seen_held _ _ HI). eapply get_held; eassumption.
 Qed.
 
 (* ---- the interface table keeps one entry per index ------------------------------------------------------ *)
@@ -532,7 +535,8 @@ Proof.
       - intros e He Hk. assert (e = i) by (apply Huk; assumption). subst e. exact Hsel.
       - simpl. rewrite H1, J1. reflexivity.
       - simpl. rewrite <- Hidx. eapply Forall_impl; [|exact H3]. intros r.
-        apply (link_ok_seen seen (add_tbl (d_intfs st) i)); [rewrite Hidx; exact Eg|exact Hseen']. }
+        apply (link_ok_seen seen (add_tbl (d_intfs st) i)); [rewrite Hidx; exact Eg|exact Hseen'].
+      - intros x Hx. apply Hseen'. rewrite <- Hidx. eapply get_held; [|exact Hx]. rewrite Hidx. exact Eg. }
     specialize (G sv ([], [], []) (Forall_nil _)).
     destruct (fold_left stepf sv ([], [], [])) as [[svcs' sent] resend]. simpl in *.
     apply Forall_app. split; [exact G|constructor; [exact I|constructor]].
